@@ -24,7 +24,7 @@ NAME_RE = re.compile(r"^(\d{4,})_(.*)_(\d{4}-\d{2}-\d{2}_\d{6})Z\.mhl$", re.S)
 
 
 def budget(tier):
-    return {"cases": 1600, "seconds": 55} if tier == "quick" else {"cases": 40000, "seconds": 600}
+    return {"cases": 6000, "seconds": 55} if tier == "quick" else {"cases": 200000, "seconds": 600}
 
 
 def run_case(cs):
